@@ -12,32 +12,40 @@ Local Open Scope N_scope.
 Theorem C13_rle_decode_prefix : forall xs tl cap,
   Forall (fun x => x < 18446744073709551616) xs -> N.of_nat (length xs) < 18446744073709551616 ->
   cap <= N.of_nat (length xs) ->
-  rle_decode (fst (rle_encode xs) ++ tl) cap = ROk (firstn (N.to_nat cap) xs) /\
+  rle_decode (fst (rle_encode xs) ++ tl) cap = RleOk (firstn (N.to_nat cap) xs) /\
   N.of_nat (length (firstn (N.to_nat cap) xs)) = cap.
 Proof. exact rle_decode_prefix. Qed.
 Print Assumptions C13_rle_decode_prefix.
+
+(* on ANY input bytes (valid or hostile) varintRLEDecode stores below the
+   capacity only — after the fix of the wrapping `totalDecoded + runLen`
+   comparison there is no other outcome in the model *)
+Theorem C13_rle_decode_cap_any_input : forall z cap,
+  N.of_nat (length (rle_stores (rle_decode z cap))) <= cap.
+Proof. exact rle_decode_cap. Qed.
+Print Assumptions C13_rle_decode_cap_any_input.
 
 (* varintRLEDecodeWithHeader is all-or-nothing: capacity below the stored count
    -> returns 0 without a store; otherwise the whole array *)
 Theorem C13_rle_header_all_or_nothing : forall xs tl cap,
   Forall (fun x => x < 18446744073709551616) xs -> N.of_nat (length xs) < 18446744073709551616 ->
   rle_decode_with_header (fst (rle_encode_with_header xs) ++ tl) cap
-  = if cap <? N.of_nat (length xs) then ROk [] else ROk xs.
+  = if cap <? N.of_nat (length xs) then RleOk [] else RleOk xs.
 Proof. exact rle_decode_with_header_roundtrip. Qed.
 Print Assumptions C13_rle_header_all_or_nothing.
 
 (* on ANY input bytes the header decoder stores below the capacity only *)
 Theorem C13_rle_header_cap_any_input : forall z cap,
-  N.of_nat (length (rres_stores (rle_decode_with_header z cap))) <= cap.
+  N.of_nat (length (rle_stores (rle_decode_with_header z cap))) <= cap.
 Proof. exact rle_decode_with_header_cap. Qed.
 Print Assumptions C13_rle_header_cap_any_input.
 
 (* varintDictDecodeInto is all-or-nothing on valid encodings *)
 Theorem C13_dict_into_all_or_nothing : forall xs d,
-  dict_build xs = BuildOk d -> Forall (fun x => x < 18446744073709551616) xs ->
+  dict_build xs = DictBuildOk d -> Forall (fun x => x < 18446744073709551616) xs ->
   N.of_nat (length xs) < 18446744073709551616 ->
   forall tl cap,
-  dec_stores (dict_decode_into (fst (dict_encode xs) ++ tl) (N.of_nat (length (fst (dict_encode xs)))) cap)
+  dict_dec_stores (dict_decode_into (fst (dict_encode xs) ++ tl) (N.of_nat (length (fst (dict_encode xs)))) cap)
   = if cap <? N.of_nat (length xs) then [] else xs.
 Proof. exact dict_into_all_or_nothing. Qed.
 Print Assumptions C13_dict_into_all_or_nothing.
@@ -45,12 +53,12 @@ Print Assumptions C13_dict_into_all_or_nothing.
 (* on ANY input bytes and any declared length varintDictDecodeInto stores at
    most maxValues elements (also when it finally returns 0) *)
 Theorem C13_dict_into_cap_any_input : forall z n cap,
-  N.of_nat (length (dec_stores (dict_decode_into z n cap))) <= cap.
-Proof. exact (fun z n cap => proj1 (proj2 (proj2 (dict_decode_into_safe z n cap)))). Qed.
+  N.of_nat (length (dict_dec_stores (dict_decode_into z n cap))) <= cap.
+Proof. exact dict_decode_into_cap. Qed.
 Print Assumptions C13_dict_into_cap_any_input.
 
 Example C13_example :
-  rle_decode (fst (rle_encode [1; 1; 1; 2; 2; 2; 3; 3; 3; 4; 4; 4])) 5 = ROk [1; 1; 1; 2; 2] /\
-  rle_decode_with_header (fst (rle_encode_with_header [1; 1; 1; 2; 2; 2; 3; 3; 3; 4; 4; 4])) 5 = ROk [] /\
-  dict_decode_into (fst (dict_encode [30; 10; 20; 10; 30; 30])) 11 5 = DNull [24].
+  rle_decode (fst (rle_encode [1; 1; 1; 2; 2; 2; 3; 3; 3; 4; 4; 4])) 5 = RleOk [1; 1; 1; 2; 2] /\
+  rle_decode_with_header (fst (rle_encode_with_header [1; 1; 1; 2; 2; 2; 3; 3; 3; 4; 4; 4])) 5 = RleOk [] /\
+  dict_decode_into (fst (dict_encode [30; 10; 20; 10; 30; 30])) 11 5 = DictNull [24].
 Proof. vm_compute. repeat split; reflexivity. Qed.
